@@ -25,6 +25,9 @@ pub struct Job {
     pub lpay: Vec<u8>,
     pub dimpl: String,
     pub limpl: String,
+    /// the carrier of the dialer's / listener's outgoing bytes buffers until flushed
+    pub dbuf: bool,
+    pub lbuf: bool,
     pub ops: Vec<Op>,
     pub seed: u64,
     pub cap: usize,
@@ -163,11 +166,11 @@ const MAX_POLLS: u64 = 2_000_000;
 
 pub fn run(job: &Job) -> Outcome {
     let rng = StdRng::seed_from_u64(job.seed);
-    let sh = Shared::new(job.ops.clone(), rng, job.p_pend);
+    let sh = Shared::new(job.ops.clone(), rng, job.p_pend, [job.dbuf, job.lbuf]);
     sh.borrow_mut().eat = job.fault == "eatbyte";
     sh.borrow_mut().log.push(
         json!({"e": "reset", "variant": "stream", "dlist": job.dlist, "lset": job.lset, "lazy": job.lazy,
-               "dpay": job.dpay, "lpay": job.lpay, "dimpl": job.dimpl, "limpl": job.limpl})
+               "dpay": job.dpay, "lpay": job.lpay, "dimpl": job.dimpl, "limpl": job.limpl, "dbuf": job.dbuf, "lbuf": job.lbuf})
         .to_string(),
     );
     let logs: Vec<Rc<std::cell::RefCell<SideLog>>> =
